@@ -22,7 +22,10 @@ uint64_t nondet_bo_u64(void); int nondet_bo_int(void);
 void h_borromean_verify(void) {
     INPUT(size_t, nrings); INPUT_ARR(size_t, rsizes, 32); INPUT_ARR(unsigned char, e0, 32); INPUT_ARR(unsigned char, m, 32);
     INPUT(_Bool, use_ev); INPUT(int, we); INPUT(uint64_t, wpos); INPUT(int, k); INPUT(int, c);
-    secp256k1_scalar *s, *ev; secp256k1_gej *pubs; secp256k1_hash_ctx hc; size_t total = 0, i, start[33]; int ret;
+    secp256k1_scalar s[MAXPUB], ev[MAXPUB]; secp256k1_gej pubs[MAXPUB]; secp256k1_hash_ctx hc; size_t total = 0, i, start[33]; int ret;
+    /* fixed arrays of the largest layout (symbolic-size arrays of 128-byte structs are not tractable); indices beyond
+     * `total` are still inside the arrays, so exact-capacity indexing is the obligation of the CALLERS (C07/C10 units:
+     * preconditions of the borromean_verify stub) */
     size_t ki = 0, kj = 0, ci = 0, cj = 0;   /* ring and position of members k and c */
     __CPROVER_assume(nrings >= 1 && nrings <= MAXRINGS);
     for (i = 0; i < MAXRINGS; i++) { start[i] = total; if (i < nrings) { __CPROVER_assume(rsizes[i] >= 1 && rsizes[i] <= 4); total += rsizes[i]; } }
@@ -30,11 +33,8 @@ void h_borromean_verify(void) {
         if ((size_t)k >= start[i] && (size_t)k < start[i] + rsizes[i]) { ki = i; kj = (size_t)k - start[i]; }
         if ((size_t)c >= start[i] && (size_t)c < start[i] + rsizes[i]) { ci = i; cj = (size_t)c - start[i]; }
     }
-    s = malloc(total * sizeof(*s)); pubs = malloc(total * sizeof(*pubs)); ev = malloc(total * sizeof(*ev));
-    __CPROVER_assume(s != NULL && pubs != NULL && ev != NULL);
     for (i = 0; i < MAXPUB; i++) if (i < total) {        /* representation invariants of the inputs */
-        s[i].d[0] = nondet_bo_u64(); s[i].d[1] = nondet_bo_u64(); s[i].d[2] = nondet_bo_u64(); s[i].d[3] = nondet_bo_u64();
-        __CPROVER_assume(scalar_ok(&s[i]) && gej_ok(&pubs[i]));
+        __CPROVER_assume(rp_scalar_ok(&s[i]) && rp_gej_ok(&pubs[i]));
     }
     __CPROVER_assume(k >= 0 && c >= 0 && we >= 0);
     hc.fn_sha256_compression = secp256k1_sha256_transform;
